@@ -41,7 +41,10 @@ class BaseRequest:
         for err_cls in (err.__class__, except_class):
             out_err = errors_map.get(err_cls)
             if out_err:
-                err = out_err
+                # out_err is one instance shared by all requests: raising it
+                # again would stack this request's frames on top of those of
+                # every earlier raise and keep all of them alive
+                err = out_err.with_traceback(None)
                 break
         raise err
 
